@@ -10,7 +10,10 @@ use std::sync::atomic::{AtomicU64, AtomicUsize, Ordering};
 use std::sync::Mutex;
 use std::time::Instant;
 
-pub const VERIF: &str = "/verif";
+/// root of the verification tree (evidence/, replays/, target/): $IPT_VERIF_DIR, default /verif
+pub fn verif_dir() -> String {
+    std::env::var("IPT_VERIF_DIR").unwrap_or_else(|_| "/verif".to_string())
+}
 pub const MAX_REPLAYS: usize = 20;
 
 #[derive(Clone, Copy, PartialEq, Eq, Debug)]
@@ -192,7 +195,7 @@ impl Ctx {
             println!("  reproduced: clause={} detail={}", clause, detail);
             return true;
         }
-        let dir = format!("{}/replays/{}", VERIF, self.id);
+        let dir = format!("{}/replays/{}", verif_dir(), self.id);
         let _ = std::fs::create_dir_all(&dir);
         let path = format!("{}/{}-{}-{:02}.json", dir, self.tier.name(), sanitize(clause), n);
         let doc = json!({"property": self.id, "clause": clause, "key": full_key, "case": case, "detail": detail});
@@ -239,8 +242,8 @@ impl Ctx {
             "known_findings_hit": self.known_hits.lock().unwrap().clone(),
             "repo_head": repo_head(),
         });
-        let path = format!("{}/evidence/{}.json", VERIF, self.id);
-        let _ = std::fs::create_dir_all(format!("{}/evidence", VERIF));
+        let path = format!("{}/evidence/{}.json", verif_dir(), self.id);
+        let _ = std::fs::create_dir_all(format!("{}/evidence", verif_dir()));
         std::fs::write(&path, serde_json::to_string_pretty(&doc).unwrap() + "\n").expect("write evidence");
         println!(
             "{} {}: evaluations={} distinct_nontrivial={} violations={} wall={:.1}s",
@@ -281,7 +284,7 @@ fn repo_head() -> String {
 /// KNOWN_FINDINGS.txt: `known: property=<id> key=<key-prefix> <text>`; `fixed:` lines suppress nothing.
 pub fn load_known(id: &str) -> Vec<Known> {
     let mut out = vec![];
-    if let Ok(s) = std::fs::read_to_string(format!("{}/KNOWN_FINDINGS.txt", VERIF)) {
+    if let Ok(s) = std::fs::read_to_string(format!("{}/KNOWN_FINDINGS.txt", verif_dir())) {
         for line in s.lines() {
             let line = line.trim();
             if let Some(rest) = line.strip_prefix("known:") {
